@@ -464,7 +464,9 @@ def SameDecisions (sem : Sem) (prog : List Instr) (declass : List Nat) : Nat →
 /-! ## 4. Taint domain
 
   A taint set is a natural number used as a bit set: bit 0 = "the flags are tainted", bit `r.idx` = register `r`
-  is tainted.  Only registers with `idx < 128` are architectural (`checkInv` rejects any other). -/
+  is tainted.  Only registers with `idx < 128` are architectural (`checkInv` rejects any other).
+  (Definitions below use `bif`, `Nat.beq`, `Nat.blt` rather than `if`/`==`/`decide`: they are evaluated by the
+  kernel, where every avoided instance unfolding counts.) -/
 
 abbrev TaintSet := Nat
 
@@ -486,13 +488,16 @@ def TaintSet.flags (T : TaintSet) : Bool := T.testBit 0
     only admits masks below 2^128), so under an inductive invariant every reachable pc carries it. -/
 def reachBit : Nat := 128
 
-/-- entry state: all architectural registers and the flags tainted, reachable -/
-def allTaint : TaintSet := 2 ^ 129 - 1
+/-- 2^128: bound on the masks of architectural registers -/
+def regLimit : Nat := 340282366920938463463374607431768211456
 
-def subset (A B : TaintSet) : Bool := A &&& B == A
+/-- entry state: all architectural registers and the flags tainted, reachable (= 2^129 - 1) -/
+def allTaint : TaintSet := 680564733841876926926749214863536422911
 
-def readMask (e : Eff) : Nat := maskOf e.reads ||| (if e.rf then 1 else 0)
-def writeMask (e : Eff) : Nat := maskOf e.writes ||| (if e.wf then 1 else 0)
+def subset (A B : TaintSet) : Bool := Nat.beq (A &&& B) A
+
+def readMask (e : Eff) : Nat := maskOf e.reads ||| (bif e.rf then 1 else 0)
+def writeMask (e : Eff) : Nat := maskOf e.writes ||| (bif e.wf then 1 else 0)
 
 /-- registers that determine which addresses are touched: base, index and the gating opmasks -/
 def addrRegs (e : Eff) : List Reg :=
@@ -502,10 +507,14 @@ def addrRegs (e : Eff) : List Reg :=
 
 def addrMask (e : Eff) : Nat := maskOf (addrRegs e)
 
+/-- `T` with the bits of `W` set (`tainted = true`) or cleared -/
+def applyWrite (tainted : Bool) (T W : Nat) : Nat :=
+  bif tainted then T ||| W else T ^^^ (T &&& W)
+
 /-- Transfer function: results are tainted iff a tainted register/flag is read or memory is loaded through a
     pointer (ALL memory reachable through pointers is secret); otherwise the written registers/flags become public. -/
 def transfer (e : Eff) (T : TaintSet) : TaintSet :=
-  if e.load || (T &&& readMask e != 0) then T ||| writeMask e else T ^^^ (T &&& writeMask e)
+  applyWrite (e.load || !Nat.beq (T &&& readMask e) 0) T (writeMask e)
 
 /-! ## 5. The checker -/
 
@@ -515,36 +524,48 @@ def okNext (inv : Nat → TaintSet) (T' : TaintSet) : Option Nat → Bool
   | some n => subset T' (inv n)
   | none => !T'.testBit reachBit
 
+/-- the branch target is an instruction boundary of the routine and inherits the taint -/
 def okTarget (inv : Nat → TaintSet) (hasPc : Nat → Bool) (T' : TaintSet) : Option Nat → Bool
   | some t => hasPc t && subset T' (inv t)
   | none => false
+
+def checkKind (inv : Nat → TaintSet) (declass : List Nat) (hasPc : Nat → Bool) (pc : Nat) (e : Eff)
+    (T T' : TaintSet) (next : Option Nat) : Bool :=
+  match e.kind with
+  | .seq => okNext inv T' next
+  | .jmp => okTarget inv hasPc T' e.target
+  | .jcc => (!T.testBit 0 || declass.contains pc)      -- branch on untainted flags (or declassified)
+            && okTarget inv hasPc T' e.target && okNext inv T' next
+  | .ret => true
 
 /-- Local check of one instruction against the invariant. -/
 def checkInstr (inv : Nat → TaintSet) (declass : List Nat) (hasPc : Nat → Bool) (i : Instr) (next : Option Nat) : Bool :=
   match effOf i with
   | none => false                                            -- unknown mnemonic / operand shape
   | some e =>
-    let T := inv i.pc
-    let T' := transfer e T
-    decide (readMask e ||| writeMask e ||| addrMask e < 2 ^ 128)   -- only architectural registers
-    && (T &&& addrMask e == 0)                                 -- base, index, gating opmask untainted
-    && (match e.kind with
-        | .seq => okNext inv T' next
-        | .jmp => okTarget inv hasPc T' e.target
-        | .jcc => (!T.testBit 0 || declass.contains i.pc)      -- branch on untainted flags (or declassified)
-                  && okTarget inv hasPc T' e.target && okNext inv T' next
-        | .ret => true)
+    Nat.blt (readMask e ||| writeMask e ||| addrMask e) regLimit    -- only architectural registers
+    && Nat.beq (inv i.pc &&& addrMask e) 0                          -- base, index, gating opmask untainted
+    && checkKind inv declass hasPc i.pc e (inv i.pc) (transfer e (inv i.pc)) next
 
 def checkFrom (chk : Instr → Option Nat → Bool) : List Instr → Option Nat → Bool
   | [], _ => true
   | i :: rest, nx => chk i (nextOf rest nx) && checkFrom chk rest nx
 
-def hasPcIn (prog : List Instr) (t : Nat) : Bool := prog.any (fun i => i.pc == t)
+def hasPcIn (prog : List Instr) (t : Nat) : Bool := prog.any (fun i => Nat.beq i.pc t)
 
-/-- `inv` is an inductive invariant of the taint analysis of `prog`, all addresses and all branch conditions
-    (except at the pcs in `declass`) are untainted under it. -/
+/-- `inv` is an inductive invariant of the taint analysis of `prog`, and under it all addresses and all branch
+    conditions (except at the pcs in `declass`) are untainted. -/
 def checkInv (prog : List Instr) (inv : Nat → TaintSet) (declass : List Nat) : Bool :=
   checkFrom (checkInstr inv declass (hasPcIn prog)) prog none
+
+/-- bit set of the pcs of the listing (for the kernel: `hasPcIn` is linear in the listing) -/
+def pcBits : List Instr → Nat
+  | [] => 0
+  | i :: rest => (1 <<< i.pc) ||| pcBits rest
+
+/-- `checkInv` with the instruction-boundary test done on a bit set -/
+def checkInvFast (prog : List Instr) (inv : Nat → TaintSet) (declass : List Nat) : Bool :=
+  checkFrom (checkInstr inv declass (fun t => (pcBits prog).testBit t)) prog none
 
 /-- Model-faithfulness side condition: no argument slot that is read overlaps a result slot that is written
     (so that modelling the results as write-only `res` loses nothing).  Slots are at most 8 bytes wide. -/
@@ -552,9 +573,18 @@ def frameOk (prog : List Instr) : Bool :=
   let effs := prog.filterMap effOf
   let loads := effs.flatMap (·.frameLoads)
   let stores := effs.flatMap (·.frameStores)
-  stores.all (fun st => loads.all (fun ld => ld + 8 ≤ st))
+  stores.all (fun st => loads.all (fun ld => Nat.ble (ld + 8) st))
 
-/-! ## 6. Computing the invariant (untrusted: its result is checked by `checkInv`) -/
+/-! ## 6. Computing the invariant (untrusted: its result is checked by `checkInv`)
+
+  The invariant is kept as ONE natural number: the taint set of pc `p` occupies bits `stride·p … stride·p+128`.
+  (Natural-number primitives are evaluated eagerly by the kernel, list cells are not.) -/
+
+def stride : Nat := 129
+
+def unpack (big : Nat) (pc : Nat) : TaintSet := (big >>> (stride * pc)) % 680564733841876926926749214863536422912  -- mod 2^129
+
+def packAt (pc : Nat) (T : TaintSet) : Nat := T <<< (stride * pc)
 
 /-- instruction with pre-computed masks -/
 structure RI where
@@ -571,77 +601,38 @@ def resolve1 (i : Instr) : RI :=
   | none => ⟨i.pc, 0, 0, false, .ret, 0⟩
 
 def RI.transfer (r : RI) (T : Nat) : Nat :=
-  if r.load || (T &&& r.rmask != 0) then T ||| r.wmask else T ^^^ (T &&& r.wmask)
+  applyWrite (r.load || !Nat.beq (T &&& r.rmask) 0) T r.wmask
 
-def insertSorted (t m : Nat) : List (Nat × Nat) → List (Nat × Nat)
-  | [] => [(t, m)]
-  | (t', m') :: rest =>
-    if t < t' then (t, m) :: (t', m') :: rest
-    else if t = t' then (t, m ||| m') :: rest
-    else (t', m') :: insertSorted t m rest
-
-/-- contributions waiting for pc `pc` (the pending list is sorted by target) -/
-def takePending (pc : Nat) : List (Nat × Nat) → Nat × List (Nat × Nat)
-  | [] => (0, [])
-  | (t, m) :: rest => if t = pc then (m, rest) else if t < pc then takePending pc rest else (0, (t, m) :: rest)
-
-/-- One forward sweep: `flow` = taint flowing in from the previous instruction, `pend` = contributions of forward
-    branches (sorted by target), `back` = contributions of backward branches (merged after the sweep). -/
-def sweep : List RI → List Nat → Nat → List (Nat × Nat) → List (Nat × Nat) → List Nat → List Nat × List (Nat × Nat)
-  | [], _, _, _, back, acc => (acc.reverse, back)
-  | r :: rs, tbl, flow, pend, back, acc =>
-    let (pm, pend1) := takePending r.pc pend
-    let cur := tbl.headD 0 ||| flow ||| pm
+/-- One sweep in listing order.  `big`: the packed invariant so far; `flow`: taint flowing in from the previous
+    instruction.  Contributions of branches are or-ed into `big` at the target: forward targets pick them up in the
+    same sweep, backward targets in the next one. -/
+def sweep : List RI → Nat → Nat → Nat
+  | [], big, _ => big
+  | r :: rs, big, flow =>
+    let cur := unpack big r.pc ||| flow
     let out := r.transfer cur
-    let (pend2, back2) :=
-      match r.kind with
-      | .jcc | .jmp => if r.target > r.pc then (insertSorted r.target out pend1, back) else (pend1, (r.target, out) :: back)
-      | _ => (pend1, back)
-    let flow' := match r.kind with
-      | .seq | .jcc => out
-      | _ => 0
-    sweep rs tbl.tail flow' pend2 back2 (cur :: acc)
+    let big1 := big ||| packAt r.pc cur
+    match r.kind with
+    | .seq => sweep rs big1 out
+    | .jcc => sweep rs (big1 ||| packAt r.target out) out
+    | .jmp => sweep rs (big1 ||| packAt r.target out) 0
+    | .ret => sweep rs big1 0
 
-def backFor (pc : Nat) : List (Nat × Nat) → Nat
+def iterate (ris : List RI) : Nat → Nat → Nat
+  | 0, big => big
+  | fuel + 1, big =>
+    let big' := sweep ris big 0
+    bif Nat.beq big' big then big else iterate ris fuel big'
+
+/-- Least fixpoint of the transfer functions over the control-flow graph, packed; the entry (first instruction)
+    starts with `entryTaint`. -/
+def computeInv (prog : List Instr) (entryTaint : TaintSet) : Nat :=
+  match prog with
   | [] => 0
-  | (t, m) :: rest => (if t = pc then m else 0) ||| backFor pc rest
+  | i :: _ => iterate (prog.map resolve1) 64 (packAt i.pc entryTaint)
 
-def mergeBack : List RI → List Nat → List (Nat × Nat) → List Nat
-  | r :: rs, t :: ts, back => (t ||| backFor r.pc back) :: mergeBack rs ts back
-  | _, _, _ => []
-
-def iterate (ris : List RI) : Nat → List Nat → List Nat
-  | 0, tbl => tbl
-  | fuel + 1, tbl =>
-    let (t1, back) := sweep ris tbl 0 [] [] []
-    let t2 := mergeBack ris t1 back
-    if t2 == tbl then tbl else iterate ris fuel t2
-
-/-- Least fixpoint of the transfer functions over the control-flow graph, as a table aligned with `prog`
-    (entry = first instruction, tainted with `entryTaint`). -/
-def computeInv (prog : List Instr) (entryTaint : TaintSet) : List Nat :=
-  let ris := prog.map resolve1
-  iterate ris 64 (entryTaint :: (ris.tail.map fun _ => 0))
-
-/-- Table lookup (two levels: chunks of the listing, then instructions), 0 off the table. -/
-def lookupIn : List Instr → List Nat → Nat → Option Nat
-  | i :: is, t :: ts, pc => if i.pc == pc then some t else lookupIn is ts pc
-  | _, _, _ => none
-
-def lookup2 : List (List Instr) → List (List Nat) → Nat → Nat
-  | c :: cs, t :: ts, pc =>
-    match cs with
-    | (j :: _) :: _ => if pc < j.pc then (lookupIn c t pc).getD 0 else lookup2 cs ts pc
-    | _ => (lookupIn c t pc).getD 0
-  | _, _, _ => 0
-
-/-- split a table like the chunks of the listing -/
-def splitLike : List (List Instr) → List Nat → List (List Nat)
-  | [], _ => []
-  | c :: cs, tbl => tbl.take c.length :: splitLike cs (tbl.drop c.length)
-
-/-- the invariant as a function of the pc, from a table aligned with the chunked listing -/
-def invOf (chunks : List (List Instr)) (tbl : List (List Nat)) : Nat → TaintSet := lookup2 chunks tbl
+/-- the computed invariant as a function of the pc -/
+def invOf (prog : List Instr) : Nat → TaintSet := unpack (computeInv prog allTaint)
 
 /-- The declassified branch: a `JNE` that follows `ORB _, r; CMPQ r, $0` (the tag-match verdict of Open). -/
 def declassOf : List Instr → List Nat
